@@ -631,7 +631,22 @@ def check_features(ctx, fi, block, total):
     w = ev2.ev(ast.parse('np.sum(__est__ / __var__) / np.sum(1 / __var__)', mode='eval').body)
     ctx.ob('combination-form', fi, loop, comb.eq(w), 'inverse-variance weighting: expected %r, source %r' % (w, comb),
            construct='combination in ' + where)
-    feats = {'solver': U(call.func).split('.')[-1], 'solver-kw': tuple(sorted((k.arg, T(k.value)) for k in call.keywords)),
+    # x0: the start of the iteration.  From zero (the default, also when spelled out) lsmr returns the MINIMUM-NORM solution - the weighting of
+    # least variance; from any other start it returns that start plus a minimum-norm correction, which still solves the system but is not it
+    kws = list(call.keywords)
+    for k in list(kws):
+        if k.arg == 'x0':
+            v0 = k.value
+            if isinstance(v0, ast.Name):
+                d0 = [a.value for a in ast.walk(fi.node) if isinstance(a, ast.Assign) and len(a.targets) == 1 and U(a.targets[0]) == v0.id]
+                v0 = d0[0] if len(d0) == 1 else v0
+            t0 = T(v0)
+            zero = t0 == 'None' or (isinstance(v0, ast.Call) and U(v0.func) in ('np.zeros', 'numpy.zeros', 'np.zeros_like'))
+            ctx.ob('variance-form', fi, call, zero, 'the solver starts from zero, so its answer is the minimum-norm weighting v (least variance of v.y); starts from `%s`%s'
+                   % (U(v0)[:60], '' if zero else ': the result is that start plus a minimum-norm correction - an unbiased weighting, not the best one'),
+                   construct='start of the solver in ' + where)
+            kws.remove(k)
+    feats = {'solver': U(call.func).split('.')[-1], 'solver-kw': tuple(sorted((k.arg, T(k.value)) for k in kws)),
              'solver-extra-args': tuple(T(a) for a in call.args[2:])}
     if want_guard is not None:
         feats['test-kw'] = tuple(sorted((k.arg, T(k.value)) for k in want_guard.keywords)) + tuple(T(a) for a in want_guard.args[2:])
